@@ -221,7 +221,9 @@ def chk_refusals(seed_i, ei, version):
     return viols, len(blob)
 
 
-HIST_OPS = ["M/0/5", "M/0/0", "M/0", "M/0/1", "M/5", "ckd5", "ckd0", "children02", "gen3", "M/0/1/2/3/4/5/6", "genM-skip", "genM3"]
+HIST_OPS = ["M/0/5", "M/0/0", "M/0", "M/0/1", "M/5", "ckd5", "children02", "gen3", "M/0/1/2/3/4/5/6", "genM-skip", "genM3",
+            # children asked for OUT OF ORDER, then in bulk (the long cyclic histories run these five in this order)
+            "ckd0", "ckd2", "ckd1", "ckd3", "children04"]
 
 
 class WatchOnlyHistories:
@@ -261,10 +263,13 @@ class WatchOnlyHistories:
                     return [next(g), next(g), next(g)]
                 st, got = attempt(gen_m)
                 subs = "genM3"
-            elif op == "children02":
-                st, nds = attempt(wo.master.generate_children, (0, 2))
+            elif op in ("children02", "children04"):
+                hi = int(op[-1])
+                st, nds = attempt(wo.master.generate_children, (0, hi))
                 got = [public_view(wo, x) for x in nds] if st == "ok" else nds
-                subs = [[0], [1]]
+                subs = [[i] for i in range(hi)]
+                if st == "ok" and len(nds) != hi:
+                    st, got = "exc", "generate_children((0, %d)) returned %d nodes" % (hi, len(nds))
             else:
                 def gen():
                     g = wo.address_generator(wo.master.derive_path([0]))
